@@ -7,9 +7,8 @@ def _sgn_range(w):
 
 
 def const_events(tree, w):
-    """Evaluate a constant expression tree the way the compiler folds it (unbounded ints, byte
-    casts unmasked) and report whether any intermediate value leaves the w-byte signed range or a
-    byte cast is applied outside 0..255 -- exactly the situations in which unbounded folding and
+    """Evaluate a constant expression tree the way the compiler folds it (unbounded ints)
+    and report whether any intermediate value leaves the w-byte signed range -- exactly the situations in which unbounded folding and
     word arithmetic can differ (Fold.fold_agrees_inrange covers all others)."""
     lo, hi = _sgn_range(w)
     ev = [False]
@@ -34,10 +33,7 @@ def const_events(tree, w):
         if k == 'not':
             return not go(t[1])
         if k == 'isbyte':
-            v = int(go(t[1]))
-            if not (0 <= v <= 255):
-                ev[0] = True
-            return v
+            return int(go(t[1])) & 255      # folded like the run-time cast since /repo 'fix: a constant is-byte cast kept the whole integer'
         if k == 'isint':
             return chk(int(go(t[1])))
         if k == 'isbool':
@@ -93,7 +89,9 @@ def _has_const_zero_division(tree):
             return int(val(t[1]))
         if k == 'not':
             return not val(t[1])
-        if k in ('isbyte', 'isint'):
+        if k == 'isbyte':
+            return int(val(t[1])) & 255
+        if k == 'isint':
             return int(val(t[1]))
         if k == 'isbool':
             return bool(val(t[1]))
